@@ -60,7 +60,7 @@ func joinRel(a, b string) string {
 // tree, whose own root entry is rootEnt) at landing ("" = the destination
 // root). The top entry itself is included only when withTop is set and
 // landing is not the destination root. Link groups are cleared; callers
-// recompute them with regroup() from the inode numbers of the snapshot.
+// recompute them with regroupAll() from the inode numbers of the snapshot.
 func placeSubtree(snap *tree.Tree, rootEnt *tree.Entry, srcRel, landing string, withTop bool) []tree.Entry {
 	var out []tree.Entry
 	var top *tree.Entry
@@ -536,6 +536,28 @@ func xattrProbe(dir string, typ byte, key string, val []byte) (refused bool) {
 
 type xehCall struct{ Dst, Src, Key string }
 
+// regroupAll recomputes link groups from the (dev, inode) numbers the entries
+// carry from the source snapshot, within the given entries only; unlike
+// regroup (c09.go) it groups symlinks too: link(2) does not follow, several
+// names of one symlink inode are a link group like any other.
+func regroupAll(t *tree.Tree) {
+	type key struct{ dev, ino uint64 }
+	first := map[key]string{}
+	for i := range t.Entries {
+		e := &t.Entries[i]
+		e.LinkTo = ""
+		if e.Type == tree.Dir || e.Nlink < 2 {
+			continue
+		}
+		k := key{e.Dev, e.Ino}
+		if f, ok := first[k]; ok {
+			e.LinkTo = f
+		} else {
+			first[k] = e.Path
+		}
+	}
+}
+
 // ---------------------------------------------------------------------------
 // requested timestamps outside the int64-nanosecond window
 
@@ -605,6 +627,22 @@ func shortLines(ls []string, n int) []string {
 		out[i] = l
 	}
 	return out
+}
+
+// snapTypeOf returns the source type of the entry that landed at dst path p.
+func snapTypeOf(snap *tree.Tree, srcRel, landing, p string) byte {
+	rel := p
+	if landing != "" {
+		if p == landing {
+			rel = ""
+		} else {
+			rel = strings.TrimPrefix(p, landing+"/")
+		}
+	}
+	if e := snap.Get(joinRel(srcRel, rel)); e != nil {
+		return e.Type
+	}
+	return 0
 }
 
 // ---------------------------------------------------------------------------
@@ -681,7 +719,7 @@ func init() {
 	core.Register(&core.Prop{
 		ID:    "C13",
 		Level: "exploration",
-		Rule: "random source trees (adversarial names incl. a 255-byte name, files around the 32KiB boundary, symlinks relative/absolute/dangling/looping, fifos, char and block devices, a few sockets, hard-link groups of regular files and of fifos/char devices, setuid/setgid/sticky, owners {0,1234,65534}, ns/negative/far-future mtimes, user.* xattrs on files and dirs, trusted.* xattrs on symlinks, random metadata on the source root itself, 1/8 of the directories without any execute bit, up to two extra symlinks whose absolute or relative target is an existing entry) are created on disk and copied with fs.Copy into an empty destination root; " +
+		Rule: "random source trees (adversarial names incl. a 255-byte name, files around the 32KiB boundary, symlinks relative/absolute/dangling/looping, fifos, char and block devices, a few sockets, hard-link groups of regular files and of fifos/char devices, in 1 tree of 6 a hard-link group of 2-3 socket names and in 1 of 6 a hard-link group of 2-3 symlink names (dangling, relative, absolute targets; same or different directories), setuid/setgid/sticky, owners {0,1234,65534}, ns/negative/far-future mtimes, user.* xattrs on files and dirs, trusted.* xattrs on symlinks, random metadata on the source root itself, 1/8 of the directories without any execute bit, up to two extra symlinks whose absolute or relative target is an existing entry) are created on disk and copied with fs.Copy into an empty destination root; " +
 			"source = {whole tree, one sub-directory, one file/fifo/device/socket, one symlink}; destination argument = {existing root, new nested path n1/n2/leaf, new nested directory n1/n2/}; flags = FollowLinks on/off, CopyDirContents on/off (directory sources), process umask {0,022,077}; in 1/8 of the cases (xattr fault variant) the destination root is a fresh directory on a file system that rejects oversized xattr values (probed at run time: /var/tmp, /tmp, /root or $VERIF_C13_XFAULT_BASE; the source stays on tmpfs), 1-3 entries carry a 4500/8000/20000-byte value of a key K in {user.xf, trusted.xf, user.k1}, at least two other files/dirs/symlinks (and sometimes the source root) carry the SAME key with 0-40 byte values at names sorting before and after the oversized ones, and the handler is AllowXAttrErrors or a recording tolerant handler (7/8) or an aborting one (1/8); " +
 			"options drawn independently: WithChown (uid,gid from {0,1,1234,65534,4000000000}), Mode (octal incl. special bits) or ModeStr (symbolic: 20 classic forms and a grammar of 1-3 clauses of who-lists x 1-2 operations + - = x subsets of rwx, X (not after '-'), s, t (with who 'a', or alone as +t/-t), permission copies u/g/o), Utime (ns, negative, far future; in 1/12 of the Utime cases an instant OUTSIDE the window an int64 nanosecond count can hold: the two instants one nanosecond outside it, years 2262-2400, years 1500-1677, random second and nanosecond), XAttrErrorHandler {nil, allow, recording-strict, recording-tolerant}, change notifier on 7/8 of the cases. " +
 			"Oracle: independent lstat/readlink/listxattr/bytes snapshot of the source, re-rooted at the landing path, with the option overrides applied, compared with the snapshot of the destination (type, bytes, symlink target, mode incl. special bits, uid/gid, ns mtime of files, symlinks and directories, xattrs, rdev, link groups recomputed from source inodes inside the copied subset); symbolic modes are evaluated by /bin/chmod on scratch nodes of the same type and original mode; directories created above the target must carry the requested owner and timestamp; when the landing path is the image of a source directory but existed before its contents were copied (the destination root, or a path created with MkdirAll for CopyDirContents / a trailing-slash destination) that directory's own ns mtime must equal the source directory's (or the requested Utime) - nothing else of it is judged; for a requested time outside the int64-ns window every copied entry (files, dirs, symlinks, specials), every directory created above the target and the landing directory are read with lstat as (sec, nsec) pairs and must equal the pair an independent utimensat(AT_SYMLINK_NOFOLLOW) of the requested (sec, nsec) leaves on a scratch node of the same destination file system (file-system clamping is thereby tolerated; the mtime columns of the generic diff are masked for these cases; a Copy that refuses such a time is counted, not judged); an xattr (entry, key) may be missing in the copy only if the recording handler was called for exactly that destination path and key, or - AllowXAttrErrors - an independent lsetxattr of that key/value on a scratch node of the destination file system is refused (further keys of the same entry after such a tolerated failure are counted, not judged); every handler call must name a copied destination path and carry an error; the notifier must be called exactly once per non-directory with its leading-slash normalised destination path (calls for directories are counted, not judged). " +
@@ -694,7 +732,7 @@ func init() {
 			"symbolic modes: /bin/chmod (GNU coreutils) run with umask 0 is the evaluator; where GNU and POSIX/BSD chmod legitimately differ both results are accepted: X after a clause that changed the execute bits (judged on the unmodified or on the current mode), set-id bits of directories not named in the request, and special bits not named in the request that an '=' or a permission copy may or may not clear",
 			"symbolic requests outside the agreed region are not generated: '-X' (three meanings), 's' together with '=<copy>', 't' together with an '=' that does not name 't', and 't' next to other letters when who is omitted ('+rt': the BSD-derived mode library applies only the sticky bit - reported, not demanded)",
 			"FollowLinks on a symlink source: the expected source entry is computed by a chroot-style resolver on the model; dangling, looping or '..'-after-symlink chains are not judged (any outcome accepted, counted)",
-			"hard-linked symlinks are not generated (the snapshot does not group them)",
+			"link groups are judged for every non-directory type, symlinks included (both snapshots are taken with SymlinkGroups); the destination is fresh, so an inode of the copy must have exactly as many names as its group has inside the copied subset",
 		},
 		Cases: func(tier string) int {
 			if tier == "thorough" {
@@ -839,6 +877,74 @@ func c13Run(c *core.Ctx) *core.Result {
 			t.Put(le)
 		}
 	}
+	// ---- hard-link groups of sockets and of symlinks (1 tree in 6 each): 2-3
+	// names of one inode, in the same or in different directories. The model
+	// expresses them with LinkTo; Materialise creates them with link(2), which
+	// does not follow a symlink.
+	{
+		lgR := R.Fork()
+		addGroup := func(first tree.Entry, names []string) {
+			if t.Get(first.Path) == nil {
+				t.Put(first)
+			}
+			dirs := dirsOf(t)
+			for i, n := 0, lgR.Range(1, 2); i < n; i++ {
+				d := core.Pick(lgR, dirs)
+				if lgR.P(1, 2) {
+					d = tree.Parent(first.Path)
+				}
+				mp := joinRel(d, names[i])
+				if t.Get(mp) != nil || len(mp) > 900 {
+					continue
+				}
+				m := first.Clone()
+				m.Path = mp
+				m.LinkTo = first.Path
+				t.Put(m)
+			}
+		}
+		pickFree := func(typ byte) *tree.Entry {
+			var c []int
+			for i := range t.Entries {
+				e := &t.Entries[i]
+				if e.Type == typ && e.LinkTo == "" && t.GroupOf(e.Path) == "" {
+					c = append(c, i)
+				}
+			}
+			if len(c) == 0 || lgR.P(1, 2) {
+				return nil
+			}
+			return &t.Entries[core.Pick(lgR, c)]
+		}
+		if lgR.P(1, 6) {
+			first := tree.Entry{Path: joinRel(core.Pick(lgR, dirsOf(t)), "sock"), Type: tree.Sock, Perm: core.Pick(lgR, []uint32{0755, 0600, 0660, 04711}), UID: core.Pick(lgR, o.Owners), GID: core.Pick(lgR, o.Owners), Mtime: core.Pick(lgR, tree.Mtimes)}
+			if e := pickFree(tree.Sock); e != nil {
+				first = e.Clone()
+			}
+			if len(first.Path) < 900 {
+				addGroup(first, []string{core.Pick(lgR, []string{"!sock.hl", "sock.hl", "~sock.hl"}), "sock.hl2"})
+			}
+		}
+		if lgR.P(1, 6) {
+			tg := "does-not-exist"
+			if len(t.Entries) > 0 {
+				x := core.Pick(lgR, t.Entries)
+				tg = core.Pick(lgR, []string{"does-not-exist", "/" + x.Path, tree.Base(x.Path), "../" + tree.Base(x.Path), ".", "/no/such/abs"})
+			}
+			first := tree.Entry{Path: joinRel(core.Pick(lgR, dirsOf(t)), "sl"), Type: tree.Symlink, Perm: 0777, Target: tg, UID: core.Pick(lgR, o.Owners), GID: core.Pick(lgR, o.Owners), Mtime: core.Pick(lgR, tree.Mtimes)}
+			if lgR.P(1, 4) {
+				first.Xattrs = map[string][]byte{"trusted.vx": lgR.Bytes(5)}
+			}
+			if e := pickFree(tree.Symlink); e != nil {
+				first = e.Clone()
+			}
+			if len(first.Path) < 900 {
+				addGroup(first, []string{core.Pick(lgR, []string{"!sl.hl", "sl.hl", "~sl.hl"}), "sl.hl2"})
+			}
+		}
+		t.Sort()
+		t.Recanon()
+	}
 	// ---- xattr fault variant (1/8 of the cases): the destination root is put
 	// on a file system that rejects oversized xattr values; the tree gets one
 	// or two entries whose value of key K is oversized and other entries that
@@ -948,7 +1054,7 @@ func c13Run(c *core.Ctx) *core.Result {
 		r.Inconclusive = "root metadata: " + err.Error()
 		return r
 	}
-	snap, err := tree.Snapshot(srcDir, tree.SnapOpt{})
+	snap, err := tree.Snapshot(srcDir, tree.SnapOpt{SymlinkGroups: true})
 	if err != nil {
 		r.Inconclusive = "snapshot src: " + err.Error()
 		return r
@@ -1035,7 +1141,7 @@ func c13Run(c *core.Ctx) *core.Result {
 	if judge {
 		exp.Entries = placeSubtree(snap, rootEnt, srcRel, landing, withTop)
 		exp.Sort()
-		regroup(exp)
+		regroupAll(exp)
 	}
 	sample := map[string]any{"plan": p, "landing": landing, "tree": shortLines(trunc(snap.Lines(), 40), 300), "src_root": shortLines([]string{rootEnt.String()}, 300)[0]}
 	r.Sample = sample
@@ -1155,13 +1261,13 @@ func c13Run(c *core.Ctx) *core.Result {
 			r.ViolateD("utime-far-range", sample, "%s %q carries mtime (sec=%d, nsec=%d) = %s; requested (sec=%d, nsec=%d) = %s, which utimensat stores on this file system as (sec=%d, nsec=%d)", what, "/"+rel, s, n, time.Unix(s, n).UTC().Format(time.RFC3339Nano), p.UtimeFar[0], p.UtimeFar[1], time.Unix(p.UtimeFar[0], p.UtimeFar[1]).UTC().Format(time.RFC3339Nano), farSec, farNsec)
 		}
 	}
-	got, err := tree.Snapshot(dstDir, tree.SnapOpt{})
+	got, err := tree.Snapshot(dstDir, tree.SnapOpt{SymlinkGroups: true})
 	if err != nil {
 		r.Violate("dest-unreadable", "cannot snapshot the destination: %v", err)
 		return r
 	}
 	// the source must be untouched
-	if after, err := tree.Snapshot(srcDir, tree.SnapOpt{}); err == nil {
+	if after, err := tree.Snapshot(srcDir, tree.SnapOpt{SymlinkGroups: true}); err == nil {
 		if d := tree.Diff(snap, after, tree.FullMask()); len(d) > 0 {
 			r.ViolateD("source-modified", d, "the copy modified its source:\n%s", strings.Join(trunc(d, 6), "\n"))
 		}
@@ -1301,6 +1407,15 @@ func c13Run(c *core.Ctx) *core.Result {
 	}
 
 	// ---- known shapes get a signature of their own
+	groupSize := map[string]int{} // canonical path -> names of that inode in the copied subset
+	for _, e := range exp.Entries {
+		if e.LinkTo != "" && !parentSet[e.Path] {
+			if groupSize[e.LinkTo] == 0 {
+				groupSize[e.LinkTo] = 1
+			}
+			groupSize[e.LinkTo]++
+		}
+	}
 	for i := range exp.Entries {
 		e := &exp.Entries[i]
 		j, ok := gi[e.Path]
@@ -1308,6 +1423,35 @@ func c13Run(c *core.Ctx) *core.Result {
 			continue
 		}
 		g := &got.Entries[j]
+		origType := e.Type
+		canon := e.LinkTo
+		if canon == "" {
+			canon = e.Path
+		}
+		if n := groupSize[canon]; n > 0 && !parentSet[e.Path] {
+			// names that share an inode in the copied source subset share one
+			// in the copy: same group (the snapshot groups by inode), and the
+			// inode has exactly that many names in the fresh destination
+			sig, kind := "", ""
+			switch origType {
+			case tree.Sock:
+				sig, kind = "socket-links-split", "socket"
+				r.Count("socket_link_members_checked", 1)
+			case tree.Symlink:
+				sig, kind = "symlink-links-split", "symlink"
+				r.Count("symlink_link_members_checked", 1)
+			}
+			switch {
+			case sig != "" && e.LinkTo != g.LinkTo:
+				r.ViolateD(sig, sample, "%s %q is one of %d names of one inode in the copied source subset (canonical name %q); in the copy it is grouped with %q (inode %d, %d links)", kind, e.Path, n, canon, g.LinkTo, g.Ino, g.Nlink)
+				e.LinkTo = g.LinkTo
+			case e.LinkTo == g.LinkTo && int(g.Nlink) != n:
+				if sig == "" {
+					sig = "link-count"
+				}
+				r.ViolateD(sig, sample, "%q (type %c) belongs to a group of %d names of one inode; the copy's inode %d has %d links", e.Path, origType, n, g.Ino, g.Nlink)
+			}
+		}
 		switch {
 		case e.Type == tree.Sock:
 			if g.Type == tree.Sock || (g.Type == tree.File && len(g.Data) == 0) {
@@ -1447,6 +1591,16 @@ func c13Run(c *core.Ctx) *core.Result {
 		}
 	}
 	r.Count("link_groups_compared", int64(len(groups)))
+	for cn := range groups {
+		if j, ok := exp.Index()[cn]; ok {
+			switch {
+			case exp.Entries[j].Type == tree.Symlink:
+				r.Count("symlink_link_groups_compared", 1)
+			case snapTypeOf(snap, srcRel, landing, cn) == tree.Sock:
+				r.Count("socket_link_groups_compared", 1)
+			}
+		}
+	}
 
 	// ---- change notifier: exactly once per non-directory, destination path
 	if p.Notify {
